@@ -63,6 +63,110 @@ func corner() []pipe.Scenario {
 	out = append(out, lineDirectiveCases()...)
 	out = append(out, otherModules()...)
 	out = append(out, rootPackage()...)
+	out = append(out, workspaces()...)
+	return out
+}
+
+// workspaces: the module is one member of a go.work workspace of 2-3 modules (go.work in its root or in the directory
+// above; with or without require/replace lines in go.mod).  For the go command every member is a "main" module; the run
+// is still the run of ONE module: the one it was started in, whose packages the entrypoints name.  Requested packages
+// import packages of the other members (directly, and member -> member).  Every member holds tagged types, a previous
+// output, a stale <base>.*.go, a look-alike and a user file; one has a gengo.sum of its own.  With or without All, every
+// file of the other members (and go.work) is byte-identical afterwards; gengo.sum is written in the root of the run's module.
+func workspaces() []pipe.Scenario {
+	on := []string{"g1"}
+	member := func(dir, path string, pkgs ...string) pipe.ExtMod {
+		x := pipe.ExtMod{Dir: dir, ModPath: path, GoVer: "1.21"}
+		for _, d := range pkgs {
+			name := "root"
+			if d != "" {
+				name = d[strings.LastIndex(d, "/")+1:]
+			}
+			x.Pkgs = append(x.Pkgs, pipe.Pkg{Dir: d, Name: name, Types: []pipe.Type{{Name: "X", Enabled: on}, {Name: "XA", Alias: "int", Enabled: on}}})
+			j := func(f string) string {
+				if d == "" {
+					return f
+				}
+				return d + "/" + f
+			}
+			x.Files = append(x.Files,
+				pipe.File{Path: j("zz_generated.retired.go"), Content: "package " + name + "\n\n// stale output in another workspace module\n"},
+				pipe.File{Path: j("zz_generatedx.go"), Content: "package " + name + "\n\n// look-alike x\n"},
+				pipe.File{Path: j("user.go"), Content: "package " + name + "\n\n// user file\n"})
+		}
+		x.Files = append(x.Files, pipe.File{Path: "README.md", Content: "# another workspace module\n"})
+		return x
+	}
+	withPrev := func(x pipe.ExtMod, dir, name string) pipe.ExtMod {
+		x.Files = append(append([]pipe.File{}, x.Files...), pipe.File{Path: dir + "zz_generated.g1.go", Content: "package " + name + "\n\n// previous output of g1 in another workspace module\n"})
+		return x
+	}
+	lib := withPrev(member("lib", "example.com/lib", "model", "util"), "model/", "model") // nested directory, unrelated path (a monorepo)
+	lib.Pkgs[0].Imports = []string{"util"}
+	tools := member("../tools", "example.com/m/tools", "", "gen") // sibling checkout whose path extends the run's module path
+	tools.Files = append(tools.Files, pipe.File{Path: "gengo.sum", Content: "example.com/m/tools h1:theirs=\n"})
+	api := withPrev(member("api", "example.com/m/api", ""), "", "root") // nested module of a multi-module repository
+	type layout struct {
+		ext   []pipe.ExtMod
+		app   []string // what ./app imports from the other members
+		conf  []string // what ./internal/conf imports from them
+		chain [2]string
+		modes [][2]string // (Work, "only" | "")
+		// member: entrypoints that lie in ANOTHER member than the one the run was started in (then that member is the
+		// module of the run: its packages are processed, gengo.sum belongs into its root, the run's own directory is frame)
+		member [][]string
+	}
+	all3 := [][2]string{{"root", ""}, {"root", "only"}, {"parent", "only"}}
+	two := [][2]string{{"root", "only"}, {"parent", ""}}
+	layouts := []layout{
+		{ext: []pipe.ExtMod{lib}, app: []string{"example.com/lib/model"}, modes: all3},
+		{ext: []pipe.ExtMod{tools}, app: []string{"example.com/m/tools/gen"}, conf: []string{"example.com/m/tools"}, modes: two,
+			member: [][]string{{"../tools/gen"}, {"../tools/..."}}},
+		{ext: []pipe.ExtMod{api}, app: []string{"example.com/m/api"}, modes: two},
+		// three members, a chain: app -> lib/model -> tools/gen (the second edge is resolved by the workspace alone)
+		{ext: []pipe.ExtMod{lib, tools}, app: []string{"example.com/lib/model"}, chain: [2]string{"model", "example.com/m/tools/gen"}, modes: [][2]string{{"root", "only"}, {"parent", "only"}},
+			member: [][]string{{"./lib/model"}, {"./lib/..."}, {"./lib/util"}, {"./lib/util", "./lib/model"}}},
+	}
+	var out []pipe.Scenario
+	for _, l := range layouts {
+		m := pipe.Module{ModPath: "example.com/m", GoVer: "1.22", Pkgs: []pipe.Pkg{
+			{Dir: "app", Name: "app", Imports: []string{"internal/conf"}, XImports: l.app, Types: []pipe.Type{{Name: "A", Enabled: on}}},
+			{Dir: "internal/conf", Name: "conf", XImports: l.conf, Types: []pipe.Type{{Name: "C", Enabled: on}}}},
+			Files: []pipe.File{{Path: "internal/conf/zz_generated.retired.go", Content: "package conf\n\n// stale output\n"},
+				{Path: "app/zz_generated.g1.go", Content: "package app\n\n// previous output of g1\n"},
+				{Path: "app/user.go", Content: "package app\n\n// user file\n"}}}
+		steps := map[string]pipe.Step{"example.com/m/app A": {Body: "var V = 1\n"}, "example.com/m/internal/conf C": {Body: "var V = 1\n"}}
+		for _, x := range l.ext {
+			x := x
+			x.Pkgs = append([]pipe.Pkg{}, x.Pkgs...)
+			for i, p := range x.Pkgs {
+				steps[x.PkgPath(p.Dir)+" X"] = pipe.Step{Body: "var V = 1\n"}
+				steps[x.PkgPath(p.Dir)+" XA"] = pipe.Step{Body: "var VA = 1\n"}
+				if l.chain[0] != "" && p.Dir == l.chain[0] {
+					x.Pkgs[i].XImports = []string{l.chain[1]}
+				}
+			}
+			m.Ext = append(m.Ext, x)
+		}
+		for _, mode := range l.modes {
+			m := m
+			m.Work, m.WorkOnly = pipe.WorkMode(mode[0]), mode[1] == "only"
+			for _, allFlag := range []bool{true, false} {
+				entries := [][]string{{"./app"}, {"./..."}, {"./internal/conf"}}
+				if !allFlag {
+					entries = [][]string{{"./app"}, {"./app", "./internal/conf"}}
+				}
+				for _, entry := range entries {
+					out = append(out, pipe.Scenario{Module: m, Entry: entry, All: allFlag, Base: "zz_generated", Gens: []pipe.Gen{{Name: "g1", Alias: true, Steps: steps}}})
+				}
+				if mode[1] == "only" {
+					for _, entry := range l.member {
+						out = append(out, pipe.Scenario{Module: m, Entry: entry, All: allFlag, Base: "zz_generated", Gens: []pipe.Gen{{Name: "g1", Alias: true, Steps: steps}}})
+					}
+				}
+			}
+		}
+	}
 	return out
 }
 
@@ -263,6 +367,12 @@ func (prop) Generate(r *core.RNG, tier string) []json.RawMessage {
 		}
 		if r.Chance(25) {
 			pipe.AddForeign(r, &sc)
+			if r.Chance(40) {
+				pipe.MakeWorkspace(r, &sc)
+				if r.Chance(25) {
+					pipe.EnterMember(r, &sc)
+				}
+			}
 		} else if r.Chance(25) {
 			rootImported(r, &sc)
 		}
@@ -300,7 +410,14 @@ func (prop) Run(in json.RawMessage, scratch string) core.Result {
 	loaderWorld := obs.Run.World
 	// likewise "a package of the run" (selected directly or through All) is a package of the module the run was started
 	// in: which module a package belongs to is decided from the go.mod files of the scenario, not by the loader's "local" set
-	ownWorld, foreign := pipe.OwnWorld(loaderWorld, &sc.Module)
+	// (in a go.work workspace the entrypoints may lie in another member than the one the run was started in: then THAT
+	// member is the module of the run, and gengo.sum belongs into its root)
+	if _, one := sc.RunModule(); !one {
+		res.Tags = []string{"entrypoints-in-several-modules"}
+		res.Notes = append(res.Notes, "the entrypoints name packages of more than one module: the statement's \"the module root\" is not unique; not judged")
+		return res
+	}
+	ownWorld, foreign := pipe.RunWorld(loaderWorld, &sc)
 	if len(foreign) > 0 {
 		res.Notes = append(res.Notes, "the loader reports packages of another module as local to the run: "+strings.Join(foreign, ", "))
 	}
@@ -466,6 +583,23 @@ func tags(sc pipe.Scenario, obs *pipe.Observation, sum pipe.Summary) []string {
 		if imported && !seen["other-module:imported"] {
 			seen["other-module:imported"] = true
 			t = append(t, "other-module:imported")
+		}
+	}
+	if sc.Module.Work != "" {
+		k := "workspace:go.work-in-" + sc.Module.WorkPlace()
+		if sc.Module.WorkNoRequire() {
+			k += ",no-require-lines"
+		}
+		t = append(t, k, fmt.Sprintf("workspace:%d-members", 1+len(sc.Module.Ext)))
+		if run, _ := sc.RunModule(); run != nil {
+			t = append(t, "workspace:entrypoints-in-another-member")
+		}
+		for _, x := range sc.Module.Ext {
+			for _, p := range x.Pkgs {
+				if len(p.XImports) > 0 {
+					t = append(t, "workspace:member-imports-member")
+				}
+			}
 		}
 	}
 	names := map[string]bool{}
